@@ -56,8 +56,9 @@ def make_programs(rng, nstmts_total, unsupported):
     total = 0
     pid = 0
     while total < nstmts_total:
-        supported_only = rng.random() < 0.7
-        pg = G.ProgGen(rng, supported_only, unsupported)
+        x = rng.random()
+        supported_only = x < 0.7
+        pg = G.ProgGen(rng, supported_only, unsupported, exact_only=x < 0.2)
         n = rng.choice([6, 10, 14, 18, 24, 30])
         st = pg.program(n)
         nrec = len([s for s in st if s[0] not in ("input", "nr")])
@@ -172,6 +173,7 @@ def tofloat(h):
 
 
 HEXRE = re.compile(r"\b[0-9a-f]{16}\b")
+MAXULP = [0]      # largest model-vs-implementation difference seen on a compared number (ulps)
 
 
 def line_diff(il, ml, tol):
@@ -179,12 +181,21 @@ def line_diff(il, ml, tol):
     None: structure only (hex fields ignored)"""
     if il == ml:
         return None
+    if tol == "lhs":
+        # structure-only regime with max/min present: NaN-tainted guards of the model may take the other arm, so only
+        # the statement sequence (count and left-hand sides) is comparable
+        if il.startswith("T ") and ml.startswith("T "):
+            f = lambda l: [x.split(":")[0].strip() for x in l.split(" | ")[1:]]
+            return None if (il.split()[1] == ml.split()[1] and f(il) == f(ml)) else "statement sequence differs"
+        tol = None
     ih, mh = HEXRE.findall(il), HEXRE.findall(ml)
     if HEXRE.sub("#", il) != HEXRE.sub("#", ml) or len(ih) != len(mh):
         return "structure differs"
     if tol is None:
         return None
     for a, b in zip(ih, mh):
+        if a != b and not (isnan_hex(a) or isnan_hex(b)):
+            MAXULP[0] = max(MAXULP[0], ulps(a, b))
         if a != b and (isnan_hex(a) or isnan_hex(b) or ulps(a, b) > tol):
             return "number differs by %s ulp (allowed %d): impl %s model %s" % (
                 "NaN" if isnan_hex(a) or isnan_hex(b) else ulps(a, b), tol, tofloat(a), tofloat(b))
@@ -340,6 +351,7 @@ def run(ctx, replay):
 
     ctx.cov["traces_validated_against_impl"] = stats["program_points"]
     ctx.notes["distribution"] = dist
+    stats["max_ulp_model_vs_impl"] = MAXULP[0]
     ctx.notes["stats"] = stats
     nu = len(G.UNARY)
     ctx.notes["unary_functions_exercised"] = "%d of %d" % (len(dist["unary"]), nu)
@@ -410,7 +422,8 @@ def judge(ctx, p, pt, il, ml, dl, stats):
         return
     # correspondence
     if p["unsupported"]:
-        tol = None; stats["structure_only_points"] += 1
+        tol = "lhs" if ({"Max", "Min"} & G.funcs_used(p["stmts"])) else None
+        stats["structure_only_points"] += 1
     elif p["exact"]:
         tol = 0; stats["exact_regime_points"] += 1
     else:
